@@ -13,7 +13,7 @@ def J(workload, cls, count, per_process=8, bench=False, **params):
 # with an empty list counts every run that evaluated its oracle at least once.
 NONTRIVIAL = {
     "C01": ["C01:byzantine_actions_view_change_and_commits"],
-    "C13": ["C13:on_demand_batch_fetch", "C13:fault_free_end_to_end"],
+    "C13": ["C13:on_demand_batch_fetch", "C13:fault_free_end_to_end", "C13:retry_to_other_peers_observed"],
     "C11": ["C11:sealed_by_size", "C11:sealed_by_timer"],
     "C12": ["C12:release_with_silent_peer", "C12:released_exactly_at_threshold"],
     "C16": ["C16:concurrent_writers_and_early_waiter"],
@@ -149,10 +149,10 @@ PLANS.update({
     },
     "C13": {
         "level": "exploration",
-        "rule": "4..7 real full nodes (Node::new from JSON key / committee / parameter files, mempool and consensus on one store) with clients writing unique transactions (single node, all nodes, bursts, trickles, empty and duplicated transactions) to the transaction ports; class s1: no fault and no view change (otherwise inconclusive): every transaction is in a batch referenced by a block every node commits and every committed batch is readable, byte-exact, from every node's re-opened store; class s10 / s10b (s10b: consensus sync retry 1 s, mempool sync retry 6 s, so that consensus re-issues its synchronize command faster than the mempool's fallback delay): the mempool link from a batch creator to a victim node is blocked for the whole run: the victim must fetch the batches on demand (BatchRequest to the proposer, retry to other peers when the proposer is the blocked creator) and keep up with the others; non-trivial = a run with >= 1 on-demand batch fetch by the victim, or a fault-free run that traced every transaction end to end",
+        "rule": "4..7 real full nodes (Node::new from JSON key / committee / parameter files, mempool and consensus on one store) with clients writing unique transactions (single node, all nodes, bursts, trickles, empty and duplicated transactions) to the transaction ports; class s1: no fault and no view change (otherwise inconclusive): every transaction is in a batch referenced by a block every node commits and every committed batch is readable, byte-exact, from every node's re-opened store; class s10 / s10b (s10b: consensus sync retry 1 s, mempool sync retry 6 s, so that consensus re-issues its synchronize command faster than the mempool's fallback delay): the mempool link from a batch creator to a victim node is blocked for the whole run: the victim must fetch the batches on demand (BatchRequest to the proposer, retry to other peers when the proposer is the blocked creator) and keep up with the others; non-trivial = a run with >= 1 on-demand batch fetch by the victim, or a fault-free run that traced every transaction end to end; component part (c13s): the mempool of one authority is driven directly through the channel consensus uses (Synchronize / Cleanup sequences, rounds below and beyond gc_depth, batches supplied or never supplied) while harness peers record every BatchRequest: a missing batch is requested from the designated peer at once and from other peers after sync_retry_delay (+ the 1 s timer), unless the request became older than gc_depth rounds",
         "assumptions": ["delays <= 40 ms (timeout 2 s)", "settling time 20 s / 40 s of virtual time"],
-        "quick": [J("e2e", "s1", 40, per_process=3), J("e2e", "s10", 32, per_process=3), J("e2e", "s10b", 32, per_process=3)],
-        "thorough": [J("e2e", "s1", 1500, per_process=8), J("e2e", "s10", 1000, per_process=8), J("e2e", "s10b", 1000, per_process=8)],
+        "quick": [J("e2e", "s1", 40, per_process=3), J("e2e", "s10", 32, per_process=3), J("e2e", "s10b", 32, per_process=3), J("c13s", "x", 16, per_process=2, scenarios=12)],
+        "thorough": [J("e2e", "s1", 1500, per_process=8), J("e2e", "s10", 1000, per_process=8), J("e2e", "s10b", 1000, per_process=8), J("c13s", "x", 256, per_process=4, scenarios=20)],
     },
     "C15": {
         "level": "exploration",
